@@ -54,7 +54,6 @@ import (
 	"github.com/centrifuge/go-substrate-rpc-client/v4/types"
 	"github.com/ethereum/go-ethereum/common"
 	ethTypes "github.com/ethereum/go-ethereum/core/types"
-	"github.com/rs/zerolog"
 	"github.com/sygmaprotocol/sygma-core/relayer/message"
 )
 
@@ -359,7 +358,7 @@ func evmWorld(c Case) *world {
 	l := evmevents.NewListener(cl)
 	dh := newEthDepositHandler()
 	deh := eventHandlers.NewDepositEventHandler(l, dh, bridgeAddr, sourceDomain, w.msgChan)
-	rv1 := eventHandlers.NewRetryV1EventHandler(zerolog.Nop().With(), l, dh, ps, bridgeAddr, sourceDomain, big.NewInt(5), w.msgChan)
+	rv1 := eventHandlers.NewRetryV1EventHandler(discardLog(), l, dh, ps, bridgeAddr, sourceDomain, big.NewInt(5), w.msgChan)
 	rmh := evmexec.NewRetryMessageHandler(spy2{w, deh}, cl, ps, big.NewInt(5), w.msgChan)
 	w.listener = func() {
 		_ = deh.HandleEvents(big.NewInt(100), big.NewInt(105))
@@ -396,8 +395,8 @@ func subWorld(c Case) *world {
 	}})
 	ps := propStore{st: map[[2]uint64]string{}}
 	dh := newSubDepositHandler()
-	deh := sublistener.NewFungibleTransferEventHandler(zerolog.Nop().With(), sourceDomain, dh, w.msgChan, conn)
-	reh := sublistener.NewRetryEventHandler(zerolog.Nop().With(), conn, dh, sourceDomain, w.msgChan)
+	deh := sublistener.NewFungibleTransferEventHandler(discardLog(), sourceDomain, dh, w.msgChan, conn)
+	reh := sublistener.NewRetryEventHandler(discardLog(), conn, dh, sourceDomain, w.msgChan)
 	rmh := subexec.NewRetryMessageHandler(spy2{w, deh}, conn, ps, w.msgChan)
 	w.listener = func() {
 		_ = reh.HandleEvents(big.NewInt(100), big.NewInt(105))
@@ -419,7 +418,7 @@ func btcWorld(c Case) *world {
 	w := &world{msgChan: make(chan []*message.Message, 1<<14)}
 	conn := &btcConn{}
 	res, feeAddr := btcSetup()
-	deh := btclistener.NewFungibleTransferEventHandler(zerolog.Nop().With(), sourceDomain, btclistener.NewBtcDepositHandler(), w.msgChan, conn, res, feeAddr)
+	deh := btclistener.NewFungibleTransferEventHandler(discardLog(), sourceDomain, btclistener.NewBtcDepositHandler(), w.msgChan, conn, res, feeAddr)
 	back := map[uint64]uint64{}
 	for _, e := range c.Events {
 		if e.Skip {
